@@ -31,7 +31,13 @@ def scool_body(env, p):
             colsd = {"chrom": bins0["chrom"].tolist(), "start": env.array(bins0["start"].tolist(), "int64"),
                      "end": env.array(bins0["end"].tolist(), "int64"), "w": env.array(w, "int64")}
             order = ["chrom", "start", "w", "end"] if p.get("extra_in_middle") else ["chrom", "start", "end", "w"]
-            binsd[nm] = pd.DataFrame({k: colsd[k] for k in order})
+            if p.get("bin_labels") and i > 0:
+                # a later cell's table carries row labels that are not 0..n-1 in order (a frame re-sorted or sliced without
+                # reset_index): the rows are still given in bin order, and positions - not labels - are what counts
+                lab = np.arange(n)[::-1].copy() if p["bin_labels"] == "reversed" else np.arange(n) + 5
+                binsd[nm] = pd.DataFrame({k: colsd[k] for k in order}, index=lab)
+            else:
+                binsd[nm] = pd.DataFrame({k: colsd[k] for k in order})
     fl = p.get("float_counts")
     if fl:
         # counts given as halves, stored through dtypes={"count": float}: the user's dtype must win over the default int32
@@ -47,7 +53,8 @@ def scool_body(env, p):
     env.cover("several_cells", len(Ks) > 1)
     env.check(fo.is_scool_file(path), "file is not recognised as a single-cell file")
     listing = fo.list_scool_cells(path)
-    env.check(listing == sorted("/cells/" + nm for nm in names), f"cell listing {listing} differs from the cell names given")
+    env.check(len(listing) == len(names) and sorted(listing) == sorted("/cells/" + nm for nm in names),
+              f"cell listing {listing} differs from the cell names given {names}")
     obs = {}
     f = env.h5.File(path, "r")
     for nm in names:
@@ -102,6 +109,12 @@ def _cases(tier):
     for per_cell in (False, True):
         out.append(dict(layout=[1, 2], kind="fixed", Ks=[1, 1], per_cell_bins=per_cell, names=["b2", "a3", "c1"], chrom_names=["chr2", "chr10"]))
     out.append(dict(layout=[2], kind="fixed", Ks=[2, 1], per_cell_bins=False, names=["b2", "a3", "c1"], float_counts=True))
+    # arbitrary cell names: names that differ only by leading zeros of an embedded number, a name that is a prefix of another, digits only
+    out.append(dict(layout=[2], kind="fixed", Ks=[1, 1, 0], per_cell_bins=False, names=["c7", "c07", "c007"]))
+    out.append(dict(layout=[2], kind="fixed", Ks=[1, 1, 1], per_cell_bins=True, names=["1", "01", "1_1"]))
+    # per-cell bin tables whose row labels are not the default 0..n-1
+    for lab in ("reversed", "shifted"):
+        out.append(dict(layout=[2, 1], kind="fixed", Ks=[1, 1], per_cell_bins=True, names=["b2", "a3", "c1"], bin_labels=lab))
     return out
 
 
